@@ -196,3 +196,19 @@ def prov_expr(rng, depth: int) -> dict:
     if r < 0.95:
         return {"k": "callp", "p": {"k": "partial", "t": "add", "args": [sub()]}, "args": [sub()]}
     return call("sumall", {"k": "list", "items": [sub(), sub()]})
+
+
+def dup_call_program(rng) -> dict:
+    """The same call reached through different expressions (different jobs, one call node): constant
+    argument vs computed argument, possibly under different parents; the duplicated task has children."""
+    V, call = EL.V, EL.call
+    k = rng.randint(1, 3)
+    t = rng.choice(["twice", "mid", "chooser", "deep"])
+    a = call(t, V(k))
+    b = call(t, call("inc", V(k - 1)))
+    c = call(t, {"k": "op", "op": "add", "args": [V(k - 1), V(1)]})
+    wrap = lambda e: call("sumall", e) if t == "mid" else e  # noqa: E731
+    items = [wrap(x) for x in rng.sample([a, b, c], rng.randint(2, 3))]
+    if rng.random() < 0.5:
+        items[-1] = call("ident", items[-1])      # one occurrence under another parent
+    return call("sumall", {"k": "list", "items": items})
